@@ -165,8 +165,74 @@ def small_arc_case(ck, c):
                     case={'arc': A}, expected=exp, observed=got, driver='arc')
 
 
+def extra_cases(ck):
+    site = 'svgpathtools/path.py'
+    # (a) arcs under similarities applied through the API: the tangent turns with the map (a negative uniform factor is a half turn), the curvature divides by |s|
+    for A in ({'r': [5, 5], 'phi': 0, 'th': 2, 'dl': 7, 'c': [3, -2]}, {'r': [5, 3], 'phi': 2, 'th': -5, 'dl': -17, 'c': [0, 0]}, {'r': [2, 7], 'phi': 3, 'th': 9, 'dl': 13, 'c': [1, 1]}):
+        arc = am.concretise(A)
+        for name, f, tmap, kf in (('scaled(-1)', lambda a: a.scaled(-1), lambda u: -u, 1.0), ('scaled(-2.5)', lambda a: a.scaled(-2.5), lambda u: -u, 1 / 2.5),
+                                  ('scaled(3)', lambda a: a.scaled(3), lambda u: u, 1 / 3.0), ('rotated(90)', lambda a: a.rotated(90), lambda u: 1j * u, 1.0),
+                                  ('rotated(-30, origin=1+2j)', lambda a: a.rotated(-30, origin=1 + 2j), lambda u: cmath.exp(-1j * math.pi / 6) * u, 1.0),
+                                  ('translated(4-7j)', lambda a: a.translated(4 - 7j), lambda u: u, 1.0), ('reversed', lambda a: a.reversed(), lambda u: -u, 1.0)):
+            ck.case(fp=('arc-similarity', str(A), name), nontrivial=True)
+            try:
+                img = f(arc)
+                for t in (0.0, 0.3, 0.5, 1.0):
+                    ti = 1 - t if name == 'reversed' else t
+                    u, v = tmap(arc.unit_tangent(t)), img.unit_tangent(ti)
+                    k0, k1 = arc.curvature(t) * kf, img.curvature(ti)
+                    nr = img.normal(ti)
+                    if not (abs(u - v) <= 1e-6) or not (abs(k0 - k1) <= 1e-6 * k0) or not (abs(nr + 1j * v) <= 1e-9):
+                        ck.disagree(key='Arc.tangent-or-curvature/under-%s' % name.split('(')[0], site=site + ':scale/rotate/translate/reversed (Arc)',
+                                    what='lattice arc %s %s at t=%r: tangent %r (expected %r), curvature %r (expected %r), normal %r' % (A, name, t, v, u, k1, k0, nr),
+                                    case={'arc': A, 'op': name, 't': t}, expected=[str(u), k0], observed=[str(v), k1], driver='arc-similarity')
+                        raise StopIteration
+            except StopIteration:
+                pass
+            except Exception as e:      # noqa
+                ck.disagree(key='Arc.tangent/raises-' + type(e).__name__, site=site, what='lattice arc %s %s raised %r' % (A, name, e), case={'arc': A, 'op': name},
+                            expected='values', observed=repr(e), driver='arc-similarity')
+    # (b) a Line queried, then an end point reassigned (directly / through Path.start, Path.end) - also to values that hash like the old ones - and queried again
+    for a0, b0, a1, b1 in ((0j, -1 + 0j, 0j, -2 + 0j), (0j, 3 - 1j, 0j, 3 - 2j), (-1 + 5j, 4j, -2 + 5j, 4j), (1j, 5 + 0j, complex(1000003, 0), 5 + 0j), (0j, 3 + 4j, 0j, -4 + 3j)):
+        for how in ('attributes', 'path setters'):
+            ln = sp.Line(a0, b0)
+            pth = sp.Path(ln)
+            ln.unit_tangent(0.5), ln.normal(0.5), pth.unit_tangent(0.5)
+            if how == 'attributes':
+                ln.start, ln.end = a1, b1
+            else:
+                pth.start, pth.end = a1, b1
+            ck.case(fp=('line-history', str((a0, b0, a1, b1)), how), nontrivial=True)
+            exp = (b1 - a1) / abs(b1 - a1)
+            got = (ln.unit_tangent(0.5), ln.normal(0.5), pth.unit_tangent(0.3), pth.normal(0.3))
+            if not (abs(got[0] - exp) <= 1e-12) or not (abs(got[1] + 1j * exp) <= 1e-12) or not (abs(got[2] - exp) <= 1e-12) or not (abs(got[3] + 1j * exp) <= 1e-12):
+                ck.disagree(key='Line.tangent/after-reassigning-an-end-point', site=site + ':Line.unit_tangent/normal',
+                            what='Line(%r, %r) queried, end points set to %r, %r via %s: tangent / normal %r, expected tangent %r' % (a0, b0, a1, b1, how, got, exp),
+                            case={'line': [str(x) for x in (a0, b0, a1, b1)], 'how': how}, expected=str(exp), observed=[str(x) for x in got], driver='line-history')
+    # (c) curves that return to their own start (the chord vanishes, the curve does not): curvature from the exact derivatives
+    for z in ([0j, 4 + 1j, 1 + 4j, 0j], [0j, 150 + 120j, 150 - 120j, 0j], [2 + 2j, 6 + 2j, 2 + 6j, 2 + 2j]):
+        seg = sp.CubicBezier(*z) if len(z) == 4 else sp.QuadraticBezier(*z)
+        for mapname, g, kf in (('as given', lambda s_: s_, 1.0), ('translated', lambda s_: s_.translated(7 - 3j), 1.0), ('rotated', lambda s_: s_.rotated(30), 1.0),
+                               ('scaled(2)', lambda s_: s_.scaled(2), 0.5), ('reversed', lambda s_: s_.reversed(), 1.0)):
+            img = g(seg)
+            for t in (0.25, 0.5, 0.8):
+                d1, d2 = seg.derivative(t, 1), seg.derivative(t, 2)
+                kexp = abs(d1.real * d2.imag - d1.imag * d2.real) / abs(d1) ** 3 * kf
+                ck.case(fp=('loop-curvature', str(z), mapname, t), nontrivial=True)
+                try:
+                    kgot = img.curvature(1 - t if mapname == 'reversed' else t)
+                except Exception as e:      # noqa
+                    kgot = e
+                if isinstance(kgot, Exception) or not (abs(kgot - kexp) <= 1e-9 * max(kexp, 1e-6)) or (kexp > 1e-6 and kgot == 0):
+                    ck.disagree(key='%s.curvature/segment-returning-to-its-start' % type(seg).__name__, site=site + ':segment_curvature',
+                                what='%r %s: curvature(%r) = %r, |x\'y\'\'-y\'x\'\'|/|z\'|^3 = %r' % (seg, mapname, t, kgot, kexp), case={'z': [str(w) for w in z], 'map': mapname, 't': t},
+                                expected=kexp, observed=repr(kgot), driver='loop')
+                    break
+
+
 def run(ck):
     rnd = random.Random(ck.seed)
+    extra_cases(ck)
     quick = ck.tier == 'quick'
     ck.rules.append('Bezier case = (BezierTan.tla curve, similarity applied); arc case = lattice arc at start / middle / end; non-trivial = a '
                     'derivative vanishes at an end (coincident control points)')
